@@ -238,8 +238,13 @@ func (g *G) soundAnswer(dim int, q query, b box, id int, pYes float64) lans {
 	switch q.q {
 	case "ray", "first":
 		o, d := q.pt(dim, 0), q.pt(dim, 1)
+		sig := q.sig
+		if sig == 0 {
+			sig = 1
+		}
 		var ok []float64
 		for _, t := range scaleGrid {
+			t /= sig // exact: sig is a power of two, d·t = (d/sig)·(t·sig)
 			if inBox(dim, o.along(d, t), b) {
 				ok = append(ok, t)
 			}
@@ -327,6 +332,13 @@ func (g *G) answers(dim int, q query, bs []box, sound bool) []lans {
 	if g.p(0.6) {
 		palette = []float64{g.pickF(scaleGrid[:17]), g.pickF(scaleGrid[:17]), g.pickF(scaleGrid[:17])}
 	}
+	if q.sig != 0 && q.sig != 1 && (q.q == "ray" || q.q == "first") { // keep the scales comparable with the box parameters
+		scaled := make([]float64, len(palette))
+		for i, t := range palette {
+			scaled[i] = t / q.sig
+		}
+		palette = scaled
+	}
 	for i, b := range bs {
 		if sound {
 			ans[i] = g.soundAnswer(dim, q, b, i, pYes)
@@ -343,7 +355,11 @@ func (g *G) aimQuery(dim int, kind string, boxes []box) query {
 	switch kind {
 	case "ray", "first":
 		o, d := g.aimRay(dim, boxes, false)
-		q.a = append(append(q.a, o[:dim]...), d[:dim]...)
+		q.setRay(dim, o, d, g.dirScale())
+		d = q.pt(dim, 1)
+		if tinyDir(dim, d) {
+			g.Stat("hier ray tiny-dir-component(<1e-6)", 1)
+		}
 		zero := false
 		for a := 0; a < dim; a++ {
 			zero = zero || d[a] == 0
@@ -421,7 +437,8 @@ func (g *G) synthJ3() int {
 	if multi && g.p(0.3) {
 		n = g.pickI([]int{13, 16, 17, 24, 31, 32, 33, 40})
 	}
-	bs := g.boxSet(3, n)
+	bs0, ss := g.boxSet(3, n), g.sceneScale()
+	bs := scaleBoxes(bs0, ss)
 	st := &synState{}
 	lv := make([]*synth3, n)
 	for i := range lv {
@@ -439,7 +456,10 @@ func (g *G) synthJ3() int {
 		g.PropFail("prop:c08 j3-build-panics", pan)
 		return 1
 	}
-	aim := g.aimBoxes(3, bs)
+	aim := g.aimBoxes(3, bs0)
+	if ss != 1 {
+		g.Stat("j3 hierarchies far from unit scale", 1)
+	}
 	nq := 2 + g.Rng.Intn(3)
 	for k := 0; k < nq; k++ {
 		kind := []string{"ray", "first", "sphere"}[g.Rng.Intn(3)]
@@ -447,6 +467,7 @@ func (g *G) synthJ3() int {
 			kind = []string{"seg", "rect", "tri"}[g.Rng.Intn(3)]
 		}
 		q := g.aimQuery(3, kind, aim)
+		q.scaleScene(ss)
 		sound := g.p(0.5)
 		st.ans = g.answers(3, q, bs, sound)
 		st.trace = nil
@@ -468,7 +489,8 @@ func (g *G) synthJ3() int {
 // synthJ2: model2d.NewJoinedCollider nests (no flattening); ray / first / circle.
 func (g *G) synthJ2() int {
 	n := g.pickI(synthSizes)
-	bs := g.boxSet(2, n)
+	bs0, ss := g.boxSet(2, n), g.sceneScale()
+	bs := scaleBoxes(bs0, ss)
 	st := &synState{}
 	lv := make([]*synth2, n)
 	for i := range lv {
@@ -483,10 +505,14 @@ func (g *G) synthJ2() int {
 		g.PropFail("prop:c08 j2-build-panics", pan)
 		return 1
 	}
-	aim := g.aimBoxes(2, bs)
+	aim := g.aimBoxes(2, bs0)
+	if ss != 1 {
+		g.Stat("j2 hierarchies far from unit scale", 1)
+	}
 	nq := 2 + g.Rng.Intn(3)
 	for k := 0; k < nq; k++ {
 		q := g.aimQuery(2, []string{"ray", "first", "sphere"}[g.Rng.Intn(3)], aim)
+		q.scaleScene(ss)
 		sound := g.p(0.5)
 		st.ans = g.answers(2, q, bs, sound)
 		st.trace = nil
@@ -503,7 +529,8 @@ func (g *G) synthJ2() int {
 // synthO3: render3d objects; FilteredObject{JoinedObject} by hand or through the real BVHToObject.
 func (g *G) synthO3() int {
 	n := 1 + g.Rng.Intn(12)
-	bs := g.boxSet(3, n)
+	bs0, ss := g.boxSet(3, n), g.sceneScale()
+	bs := scaleBoxes(bs0, ss)
 	st := &synState{}
 	lv := make([]*synthObj, n)
 	for i := range lv {
@@ -526,10 +553,14 @@ func (g *G) synthO3() int {
 		g.PropFail("prop:c08 o3-build-panics", pan)
 		return 1
 	}
-	aim := g.aimBoxes(3, bs)
+	aim := g.aimBoxes(3, bs0)
+	if ss != 1 {
+		g.Stat("o3 hierarchies far from unit scale", 1)
+	}
 	nq := 2 + g.Rng.Intn(3)
 	for k := 0; k < nq; k++ {
 		q := g.aimQuery(3, "first", aim)
+		q.scaleScene(ss)
 		sound := g.p(0.5)
 		st.ans = g.answers(3, q, bs, sound)
 		st.trace = nil
